@@ -27,6 +27,7 @@ RULE = ("One evaluation = one seeded execution (direct hints one way or both "
         "among non-trivial runs.")
 RULE += (' The end-to-end configuration also loses the connection silently (no end told, clock running: only the ping monitor notices).')
 RULE += (' Half of the runs of the first three configurations carry application traffic (subchannels opened, written to and closed from either side, also while no connection exists), so that a replacement connection starts with records waiting to be re-sent.')
+RULE += (' A sixth configuration kills one direction of the connection in use silently (nothing the Leader sends arrives, the Follower\'s data keeps arriving): only the ping monitor can notice, and the sides must still end up on a new shared connection.')
 RULE += (' A fifth configuration (relay_race) has direct hints and a relay; after the first connection only the relay stays reachable.')
 LEVEL_TEXT = ("Seeded exploration. After every event: roles differ and the "
               "Leader is the side with the larger dilation side; each side "
@@ -53,7 +54,7 @@ def configs(tier):
     # messages' dilate-N counter passes 10)
     return [{"staged": False}, {"staged": None},
             {"staged": False, "long_session": True},
-            {"e2e": True}, {"relay_race": True}]
+            {"e2e": True}, {"relay_race": True}, {"one_way": True}]
 
 
 def run_e2e(seed, tape, opts, app=None):
@@ -276,7 +277,29 @@ def _st(m):
                                getattr(m, "_next_dilation_generation", "?"))
 
 
+def run_one_way(seed, tape, opts):
+    """A loss that neither end is told about and that kills one direction
+    only: from a drawn time nothing the Leader sends arrives while the
+    Follower's data keeps arriving. Only the Leader's ping monitor can notice;
+    the sides must end up on a new shared connection (C16's one_way regime,
+    judged here for convergence)."""
+    from checks import c16
+    res = c16.run_one(seed, tape, dict(opts, regime="one_way"))
+    v = res.get("violation")
+    if v and v["key"].startswith("C16."):
+        res["violation"] = {
+            "key": "C11.no_convergence",
+            "clause": "after any loss of the connection in use the two sides "
+                      "converge on a new shared connection without deadlock",
+            "detail": "one direction of the connection in use died silently "
+                      "(the Follower's data still arrives): " + v["detail"] +
+                      " [" + v["key"] + "]"}
+    return res
+
+
 def run_one(seed, tape, opts):
+    if opts.get("one_way"):
+        return run_one_way(seed, tape, opts)
     if opts.get("e2e"):
         return run_e2e(seed, tape, opts)
     if opts.get("relay_race"):
